@@ -251,6 +251,21 @@ func genTable(s *Stream, idx int, o *GenOpts) *TableDef {
 	if s.Chance(1, 10) {
 		t.DB = []string{"mysql", "sys", "performance_schema", "information_schema"}[s.Weighted(5, 1, 1, 1)]
 	}
+	if s.Chance(1, 12) {
+		// name lengths at the ends of the one-byte range (and where a length-encoded
+		// integer would switch to its multi-byte forms)
+		n := []int{1, 250, 251, 252, 253, 254, 255}[s.N(7)]
+		name := fmt.Sprintf("%d", idx)
+		useName := s.Chance(1, 2)
+		if len(name) <= n { // (a one-byte name can tell ten tables apart, not more)
+			name += strings.Repeat("x", n-len(name))
+			if useName {
+				t.Name = name
+			} else {
+				t.DB = name
+			}
+		}
+	}
 	ncols := 1 + s.N(o.MaxCols)
 	if o.WideTables && s.Chance(1, 25) {
 		ncols = 250 + s.N(351)
@@ -914,6 +929,7 @@ func (b *builder) posOf(ev *Event) Pos {
 func (b *builder) addUnit(kind unitKind) {
 	s := b.s
 	h := b.h
+	forced := b.forceNextTx
 	if b.forceNextTx {
 		b.forceNextTx = false
 		switch kind {
@@ -945,8 +961,14 @@ func (b *builder) addUnit(kind unitKind) {
 	switch kind {
 	case uTxXID, uTxCommit, uTxRollback:
 		b.gtidEvent(ts)
-		b.queryEvent(ts, b.pickDB(), beginSQL())
-		exps := b.txBody(ts)
+		var exps []ExpEvent
+		if kind == uTxRollback && !forced && s.Chance(1, 5) {
+			// a ROLLBACK that no BEGIN precedes (a statement that failed in autocommit
+			// mode and touched a non-transactional table): an empty transaction as well
+		} else {
+			b.queryEvent(ts, b.pickDB(), beginSQL())
+			exps = b.txBody(ts)
+		}
 		ts = h.ts(s)
 		if b.o.IgnorableGap > 0 && s.Chance(1, 10) {
 			switch s.N(3) {
